@@ -57,7 +57,7 @@ type c18Merge struct {
 
 func init() {
 	register(&Prop{ID: "C18", Run: c18Run,
-		Rule: "histories of AddDocument / AddUnnamedDocument / AddDocumentFromReader / AddDocumentFromFile (<= 30 adds quick, <= 200 thorough) over a name pool of 5 (so re-adds occur), tag pool {t1,t2,t3,*,\"\"}, options none / WithTags / MergeTags / MustCreate (WithTags combined with a policy as the API is used), malformed reader text and missing files; two in five re-adds of a registered name carry content EQUAL to the stored one (the same reader / file text loaded again, an equal document built separately, a Clone() of the served document), half of them with no option at all, the others with MergeTags, MustCreate or generated options; after every add: TaggedSubset for 4 tag sets, AsOne, NamedDocument for every pool name and an unknown one. Every document carries a unique id so a stale document is visible; for equal content the served INSTANCE is compared by identity with the one handed to the registering call (after every step, for every registered name). Kind `combo` (model comparison and no-panic only) also mixes MergeTags+MustCreate on one call and explicit names of the form default__N. Kind `mergefiles` runs the pipeline template function mergeFiles over generated files. One add in eight registers the very INSTANCE already served under some name (another name or its own); one add / reader add in six takes its name from the set itself (the name LayerNames() reports for some registered layer at that moment, generated names of unnamed documents included: tagging an unnamed document afterwards with MergeTags, replacing it, MustCreate on it - a re-add like any other, and later unnamed documents still get fresh names); one reader add in seven reads a well-formed text through a reader that reports an I/O error part-way (bad input: an error, nothing registered); every TaggedSubset query is asked twice and with its tags reversed. Kind `bigdocs` (direct predicates only): one document whose YAML / JSON text has an exact size just under / at / just over 512 B, 4 KiB, 64 KiB, 1 MiB (bulk: one long string, many keys, a long list; multi-byte characters across the threshold offset), registered through AddDocumentFromReader (whole / chunked / data+EOF reader, after readers failing part-way), AddDocumentFromFile and AddDocument(FromMap) between two small documents: every view serves the generated document under all three names and the three are Equal. VALUE RANGE (c18_names.go): half of the histories draw their five names - and, independently, half draw their five tags ('*' always among them) - from families of confusable spellings: path-like names differing in doubled / trailing separators, './' prefixes, '.' and '..' segments; letter-case twins; leading / trailing / inner white space (space, tab, NBSP, line break); Unicode composition twins, supplementary-plane characters, U+FFFD; characters that look like syntax; digit strings around 2^63 / 2^64; boolean / null spellings; the empty string (a name like any other); prefixes of each other; near misses of default__N. Two names (tags) are the same exactly when they are the same string: every clause is evaluated with string identity, NamedDocument is also asked for up to three further members of the same families that were never registered (nil), TaggedSubset for never-given sibling tags. One document in seven is EMPTY (no keys at all, through every entry point: a document like any other - registered, served, kept by must-create / merge-tags), one in fourteen holds only an empty-but-present value (empty container / empty list / \"\" / null); string leaves include white-space, case and digit-string variants. A history is non-trivial when it re-adds at least one name; distinct = distinct canonical case JSON.",
+		Rule: "histories of AddDocument / AddUnnamedDocument / AddDocumentFromReader / AddDocumentFromFile (<= 30 adds quick, <= 200 thorough) over a name pool of 5 (so re-adds occur), tag pool {t1,t2,t3,*,\"\"}, options none / WithTags / MergeTags / MustCreate (WithTags combined with a policy as the API is used), malformed reader text and missing files; two in five re-adds of a registered name carry content EQUAL to the stored one (the same reader / file text loaded again, an equal document built separately, a Clone() of the served document), half of them with no option at all, the others with MergeTags, MustCreate or generated options; after every add: TaggedSubset for 4 tag sets, AsOne, NamedDocument for every pool name and an unknown one. Every document carries a unique id so a stale document is visible; for equal content the served INSTANCE is compared by identity with the one handed to the registering call (after every step, for every registered name). Kind `combo` (model comparison and no-panic only) also mixes MergeTags+MustCreate on one call and explicit names of the form default__N. Kind `mergefiles` runs the pipeline template function mergeFiles over generated files. One add in eight registers the very INSTANCE already served under some name (another name or its own); one add / reader add in six takes its name from the set itself (the name LayerNames() reports for some registered layer at that moment, generated names of unnamed documents included: tagging an unnamed document afterwards with MergeTags, replacing it, MustCreate on it - a re-add like any other, and later unnamed documents still get fresh names); one reader add in seven reads a well-formed text through a reader that reports an I/O error part-way (bad input: an error, nothing registered); every TaggedSubset query is asked twice and with its tags reversed. Kind `bigdocs` (direct predicates only): one document whose YAML / JSON text has an exact size just under / at / just over 512 B, 4 KiB, 64 KiB, 1 MiB (bulk: one long string, many keys, a long list; multi-byte characters across the threshold offset), registered through AddDocumentFromReader (whole / chunked / data+EOF reader, after readers failing part-way), AddDocumentFromFile and AddDocument(FromMap) between two small documents: every view serves the generated document under all three names and the three are Equal. Kind `manytags` (direct predicates only, c18_many.go): the SCALE of one set - 20 to 400 AddDocument calls over a name pool two thirds that size (re-adds under every policy) with tags from a universe of 5 to 1100 distinct strings (sizes just under / at / just over 8, 16, ... 1024 among them; one to three tags per WithTags call, now and then a batch of dozens, also on must-create calls that fail); at two intermediate points and at the end AsOne holds all documents in insertion order, NamedDocument serves the registered instance and TaggedSubset is asked for EVERY distinct tag given so far, one at a time, for a never-given tag and for six sets of several tags: exactly the documents carrying one of the tags, in insertion order, each layer the registered document. VALUE RANGE (c18_names.go): half of the histories draw their five names - and, independently, half draw their five tags ('*' always among them) - from families of confusable spellings: path-like names differing in doubled / trailing separators, './' prefixes, '.' and '..' segments; letter-case twins; leading / trailing / inner white space (space, tab, NBSP, line break); Unicode composition twins, supplementary-plane characters, U+FFFD; characters that look like syntax; digit strings around 2^63 / 2^64; boolean / null spellings; the empty string (a name like any other); prefixes of each other; near misses of default__N. Two names (tags) are the same exactly when they are the same string: every clause is evaluated with string identity, NamedDocument is also asked for up to three further members of the same families that were never registered (nil), TaggedSubset for never-given sibling tags. One document in seven is EMPTY (no keys at all, through every entry point: a document like any other - registered, served, kept by must-create / merge-tags), one in fourteen holds only an empty-but-present value (empty container / empty list / \"\" / null); string leaves include white-space, case and digit-string variants. A history is non-trivial when it re-adds at least one name; distinct = distinct canonical case JSON.",
 		Assumptions: []string{
 			"documents are non-nil containers with path-safe keys (no key ends in an index group)",
 			"the YAML/JSON decoding of reader/file documents is C01's concern: the expected document is what dom.Builder().FromReader yields on the same text",
@@ -70,6 +70,9 @@ func init() {
 // once (a failure that needs two adds of equal content survives no shrink of one of the two alone).
 func c18Shrink(kind string, raw []byte) [][]byte {
 	var out [][]byte
+	if kind == "manytags" {
+		return append(c18ManyShrink(raw), shrinkJSON(kind, raw)...)
+	}
 	var cs map[string]any
 	if err := json.Unmarshal(raw, &cs); err == nil {
 		ops, _ := cs["ops"].([]any)
@@ -303,6 +306,8 @@ func c18Run(c *Ctx) {
 		}
 		c.Do("mergefiles", c18Merge{Docs: docs})
 	}
+	// last, so that the cases above are the ones they were before this kind existed
+	c18ManyCases(c)
 }
 
 // c18FailingReader hands out `left` bytes of the text, then reports an I/O error (never io.EOF).
@@ -458,6 +463,10 @@ func c18Eval(c *Ctx, kind string, raw []byte) {
 	}
 	if kind == "bigdocs" {
 		c18EvalBig(c, raw)
+		return
+	}
+	if kind == "manytags" {
+		c18EvalMany(c, raw)
 		return
 	}
 	var cs c18Case
